@@ -10,6 +10,12 @@ import shutil
 import traceback
 import uuid
 
+# imported here so that every forked child finds them loaded (the parent imports forml but never uses a registry)
+import forml  # noqa: F401
+from forml import project as _prj  # noqa: F401
+from forml.io import asset as _asset  # noqa: F401
+from forml.provider.registry.filesystem import posix as _posix, volatile as _volatile  # noqa: F401
+
 from . import fault
 
 EPOCH = datetime.datetime(2024, 1, 1, 12, 0, 0)
